@@ -21,11 +21,16 @@ THEOREMS = ["SigpyVerif.C08." + t for t in [
     "data_adjoint_2d", "filter_adjoint_2d", "adjoint_nd", "mkAxes_ok", "data_adjoint_nd_code", "filter_adjoint_nd_code",
     "convD_comm", "mkAxes_swap", "code_len_counts", "data_adjoint_code_len", "filter_adjoint_code_len",
     "gi_model_is_star_ring",
+    # translator-generated loop wiring (Gen.ConvWiring), any D x batch x channels, dtypes, Linop wrappers (Gen.ConvLinops)
+    "wiring_flags", "wiring_loops", "conv_wiring", "data_adj_wiring", "filt_adj_wiring",
+    "conv_out_len_any", "mkAxes_ok_admitted", "data_adjoint_nd_mc", "filter_adjoint_nd_mc", "mkAxes_p", "adjoint_nd_mc_code",
+    "mkAxes_shapes", "split_mc", "split_sc",
+    "dtype_rule", "complex_output_exact", "linop_adjoint_args_agree", "linop_double_adjoint",
 ]]
 
 
 def translate(ctx):
-    G.regenerate(ctx, ["ConvFormulas"])
+    G.regenerate(ctx, ["ConvFormulas", "ConvWiring", "ConvLinops", "ConvParams"])
 
 
 # ---- cases ----------------------------------------------------------------------------------------
@@ -145,10 +150,15 @@ def A(arr):
     return ",".join(out) if out else "-"
 
 
+def dtypes_of(c):
+    """(data, filter, output-side array) has a complex dtype"""
+    return [bool(v) for v in (c.get("mix") or [c["cplx"]] * 3)]
+
+
 def head(c):
     dsh, fsh = shapes(c)
-    return "dsh=%s fsh=%s mode=%s st=%s mc=%d" % (L(dsh), L(fsh), c["mode"], "none" if c["s"] is None else L(c["s"]),
-                                                 1 if c["mc"] else 0)
+    return "dsh=%s fsh=%s mode=%s st=%s mc=%d dt=%s" % (L(dsh), L(fsh), c["mode"], "none" if c["s"] is None else L(c["s"]),
+                                                       1 if c["mc"] else 0, "".join("1" if v else "0" for v in dtypes_of(c)))
 
 
 def parse_reply(r):
@@ -176,7 +186,14 @@ def canon(arr):
     return (list(arr.shape), [(int(a), int(b)) for a, b in zip(re, im)])
 
 
+def is_cast_error(e):
+    """numpy's casting TypeError (UFuncTypeError), raised directly or wrapped by Linop.apply"""
+    return isinstance(e, TypeError) or isinstance(getattr(e, "__cause__", None), TypeError)
+
+
 def err(e):
+    if is_cast_error(e):
+        return "err TypeError"
     return "err ValueError" if isinstance(e, ValueError) else "err %s" % type(e).__name__
 
 
@@ -193,7 +210,7 @@ def kw(c):
 
 def run_impl(c, x, op, via):
     """op in conv / dadj / fadj; via in fn / linop / linop-direct (adjoint classes built directly) /
-    linop-filter (ConvolveFilter for conv)"""
+    linop-filter (ConvolveFilter for conv) / adjH-data, adjH-filter (.H of the adjoint classes)"""
     import sigpy as sp
     from sigpy import linop
     dsh, fsh = shapes(c)
@@ -206,6 +223,10 @@ def run_impl(c, x, op, via):
             return linop.ConvolveData(dsh, f, **k)(d)
         if via == "linop-filter":
             return linop.ConvolveFilter(fsh, d, **k)(f)
+        if via == "adjH-data":      # the adjoint class's own `_adjoint_linop`
+            return linop.ConvolveDataAdjoint(dsh, f, **k).H(d)
+        if via == "adjH-filter":
+            return linop.ConvolveFilterAdjoint(fsh, d, **k).H(f)
     if op == "dadj":
         if via == "fn":
             return sp.convolve_data_adjoint(y, f, dsh, **k)
@@ -223,7 +244,7 @@ def run_impl(c, x, op, via):
     raise ValueError((op, via))
 
 
-VIAS = {"conv": ["fn", "linop", "linop-filter"], "dadj": ["fn", "linop", "linop-direct"],
+VIAS = {"conv": ["fn", "linop", "linop-filter", "adjH-data", "adjH-filter"], "dadj": ["fn", "linop", "linop-direct"],
         "fadj": ["fn", "linop", "linop-direct"]}
 
 
@@ -287,6 +308,21 @@ def lines_nd(c, x):
     }
 
 
+def lines_mcD(c, x):
+    """the D-dimensional batch / multi-channel layer with the translator-generated wiring
+    (theorems data_adjoint_nd_mc / filter_adjoint_nd_mc / adjoint_nd_mc_code)"""
+    if domain(c) == "mixed":
+        return {}
+    B = int(np.prod(c["b"])) if c["b"] else 1
+    ci, co = (c["ci"], c["co"]) if c["mc"] else (1, 1)
+    h = "B=%d ci=%d co=%d m=%s n=%s s=%s mode=%s" % (B, ci, co, L(c["m"]), L(c["n"]), L(strides_of(c)), c["mode"])
+    return {
+        "conv": "C08 mcD which=conv %s d=%s f=%s" % (h, A(x["d"]), A(x["f"])),
+        "dadj": "C08 mcD which=dadj %s y=%s f=%s" % (h, A(x["y"]), A(x["f"])),
+        "fadj": "C08 mcD which=fadj %s y=%s d=%s" % (h, A(x["y"]), A(x["d"])),
+    }
+
+
 def norm_shape(c, op):
     B = int(np.prod(c["b"])) if c["b"] else 1
     ci, co = (c["ci"], c["co"]) if c["mc"] else (1, 1)
@@ -320,6 +356,9 @@ def _run(ctx, cases, stream, rng, vias=None):
         for op, ln in lines_for(c, x).items():
             lines.append(ln)
             meta.append((c, x, op, "nd"))
+        if c.get("mix"):   # whether the Linops can be constructed is a matter of shapes only: dtype-neutral forward call
+            lines.append(lines_for(dict(c, mix=None), x)["conv"])
+            meta.append((c, x, "probe", "nd"))
         for op, ln in lines_1d(c, x).items():
             lines.append(ln)
             meta.append((c, x, op, "1d"))
@@ -332,24 +371,30 @@ def _run(ctx, cases, stream, rng, vias=None):
         for op, ln in lines_nd(c, x).items():
             lines.append(ln)
             meta.append((c, x, op.split("#")[0], "nD"))
+        for op, ln in lines_mcD(c, x).items():
+            lines.append(ln)
+            meta.append((c, x, op, "mcD"))
     replies = ctx.driver(lines)
     bad = 0
     fwd = {}   # id(case) -> model reply of the forward call (decides whether the Linops can be constructed)
     for (c, x, op, layer), r in zip(meta, replies):
-        if op == "conv" and layer == "nd":
+        if (op == "probe" or (op == "conv" and not c.get("mix"))) and layer == "nd":
             fwd[id(c)] = parse_reply(r)
     for (c, x, op, layer), ln, r in zip(meta, lines, replies):
+        if op == "probe":
+            continue
         model = parse_reply(r)
         dom = domain(c)
         for via in (vias or VIAS)[op] if layer == "nd" else ["fn"]:
             try:
                 got = run_impl(c, x, op, via)
-                impl = canon(np.reshape(got, norm_shape(c, op)) if layer == "mc1" else got)
+                impl = canon(np.reshape(got, norm_shape(c, op)) if layer in ("mc1", "mcD") else got)
             except Exception as e:  # noqa
                 impl = err(e)
-                if c.get("mix") and isinstance(e.__cause__ or e, TypeError) or (c.get("mix") and isinstance(e, TypeError)):
-                    ctx.count("mixed-dtype-rejected")   # rejected, not computed: nothing to compare
-                    continue
+                if c.get("mix") and is_cast_error(e):
+                    ctx.count("mixed-dtype-rejected:%s:%s" % (op, "".join("c" if v else "r" for v in dtypes_of(c))))
+                    if layer != "nd":
+                        continue   # the index-level layers carry no dtypes: nothing to compare
             want = model
             if via != "fn":
                 # Linop contract (hand-written): the constructor calls _get_convolve_params and rejects a
@@ -376,8 +421,12 @@ def correspond(ctx):
     ctx.assumptions += [
         "scipy.signal.convolve/correlate enter the model by their index contracts (convOff, corrShift, scipyLen), numpy "
         "slicing/broadcast/reshape by sliceLen/bcast/npReshape: hand-written, validated by the correspondence only",
-        "the per-(batch, c_o, c_i) loop wiring of _convolve and the adjoints is hand-transcribed (validated by correspondence); "
-        "the length formulas, the admission test and the adjoints' correlate-mode branches are translator-generated",
+        "translator-generated: the length formulas, the admission test, the adjoints' correlate-mode branches (Gen.ConvFormulas); "
+        "the (batch, c_o, c_i) loop wiring, zero-stuffing statement, `+=`, `[slc]`, allocation dtypes of the three functions "
+        "(Gen.ConvWiring); the argument passing of the four Linop classes (Gen.ConvLinops); how _get_convolve_params splits the "
+        "shapes into b, m, n, c_i, c_o (Gen.ConvParams)",
+        "numpy's casting rules (silent complex->real cast on item assignment, TypeError on in-place add of a complex term into a "
+        "real array) are a hand-written contract (convDtypeRule / adjDtypeRule), validated by the mixed-dtype correspondence cases",
         "cuDNN paths are out of scope",
     ]
     rng = ctx.rng
